@@ -317,7 +317,9 @@ impl Sampling for ToyScalar {
         let mut bytes = [0; 512 / 8];
         hasher.update(seed);
         hasher.finalize(&mut bytes);
-        Self([bytes[0] % (P as u8)])
+        // non-zero, as for `random`: a zero ElGamal randomness (probability
+        // 2^-252 with the real hash) would make every session key trivial
+        Self([1 + bytes[0] % (P as u8 - 1)])
     }
 }
 
